@@ -488,6 +488,16 @@ func init() {
 				p := rng.Intn(8*len(a) + 1)
 				n := netOf(a, p)
 				spec := gen.SubCA(nb)
+				switch rng.Intn(4) {
+				case 0: // a cross-purpose CA: no extended key usage, policies of two CA/B Forum documents in either order
+					spec.RemoveExt(gen.OIDExtEKU)
+					pols := [][]string{{"2.23.140.1.5.1.1", gen.OIDPolOV}, {gen.OIDPolOV, "2.23.140.1.5.1.1"}, {gen.OIDPolCS, gen.OIDPolEV}, {gen.OIDPolDV, gen.OIDPolEVCS}}[rng.Intn(4)]
+					spec.ReplaceExt(gen.ExtPolicies(pols...))
+					c.R.Count("nc_certs_on_cross_purpose_cas", 1)
+				case 1: // anyExtendedKeyUsage and the TLS policy behind a foreign one
+					spec.ReplaceExt(gen.ExtEKU(false, gen.OIDEkuAny))
+					spec.ReplaceExt(gen.ExtPolicies("1.3.6.1.4.1.55555.1.1", "2.23.140.1.5.3.2", gen.OIDPolOV))
+				}
 				payload := append(append([]byte{}, n.IP...), n.Mask...)
 				permitted := []*der.Node{gen.Subtree(gen.GNIP(payload))}
 				var excluded []*der.Node
@@ -618,6 +628,18 @@ func c19Lint(c *mon.Ctx, g lint.Registry, derBytes []byte, name string, want lin
 		// the generated certificates are dated outside the window the lint carries today
 		c.R.Distinct("named_lints_that_cannot_judge", name)
 		return
+	}
+	if r.Status == lint.NA {
+		// "the lints report accordingly": NA is an answer only when the lint did not run - out of its document's scope
+		// (decided from the parsed EKUs / policies / SAN, as in C04) or rejected by its own applicability test
+		if li, ok := InvBy[name]; ok {
+			if f := factsFromParsed(o.Cert); f.inScope(li.Meta.Source) {
+				if d := mon.RunDirect(li, o, lint.NewEmptyConfig()); d.Panic == nil && d.CfgErr == nil && d.Applies && d.InWindow {
+					c.V(fmt.Sprintf("lint|%s|not-judged", name), fmt.Sprintf("%s = NA although the certificate is in the scope of %s and the lint's own applicability test accepts it; the address/network test says %s (%s)", name, li.Meta.Source, want, what), name, inputs(o), nil)
+					return
+				}
+			}
+		}
 	}
 	if r.Status == lint.NA || r.Status == lint.NE {
 		c.R.Count("lint_not_applicable", 1)
